@@ -8,6 +8,7 @@
 #include <jsoncons_ext/ubjson/ubjson.hpp>
 #include <jsoncons_ext/bson/bson.hpp>
 #include <memory>
+#include <chrono>
 #include <optional>
 #include <variant>
 
@@ -27,6 +28,15 @@ template <class U> struct Eq<std::shared_ptr<U>> { static bool eq(const std::sha
 template <class U> struct Eq<std::unique_ptr<U>> { static bool eq(const std::unique_ptr<U>& a, const std::unique_ptr<U>& b) { return (!a && !b) || (a && b && Eq<U>::eq(*a, *b)); } };
 template <class U> struct Eq<std::vector<U>> { static bool eq(const std::vector<U>& a, const std::vector<U>& b) { if (a.size() != b.size()) return false; for (size_t i = 0; i < a.size(); ++i) if (!Eq<U>::eq(a[i], b[i])) return false; return true; } };
 template <class K, class V> struct Eq<std::unordered_map<K, V>> { static bool eq(const std::unordered_map<K, V>& a, const std::unordered_map<K, V>& b) { if (a.size() != b.size()) return false; for (auto& kv : a) { auto it = b.find(kv.first); if (it == b.end() || !Eq<V>::eq(kv.second, it->second)) return false; } return true; } };
+
+// Where a format carries the value in a narrower representation, equality is demanded up to that representation:
+// CBOR writes an epoch_nano count as tag 1 with a float64 of seconds, so a nanoseconds count comes back within the rounding
+// of that double (1 part in 2^52, at least 1 ns); everything else must come back exactly.
+template <class T> struct Near { static bool ok(int, const T&, const T&) { return false; } };
+template <> struct Near<std::chrono::nanoseconds> { static bool ok(int f, const std::chrono::nanoseconds& a, const std::chrono::nanoseconds& b) {
+    if (f != 1 /*F_CBOR*/) return false;
+    long double x = (long double)a.count(), y = (long double)b.count(), d = x > y ? x - y : y - x, m = x < 0 ? -x : x;
+    return d <= 1.0L + m * 4.5e-16L; } };
 
 template <class T> std::string show_value(const T& t) { try { std::string s; jsoncons::encode_json(t, s); return s; } catch (const std::exception& e) { return std::string("<unprintable: ") + e.what() + ">"; } }
 
@@ -64,7 +74,8 @@ void check_value(const std::string& tname, size_t vi, const T& t, bool object_ro
         ++cnt().eval;
         Bytes enc;
         try { enc = encode_typed(f, t); } catch (const std::exception& e) { out().viol(sig, what + "encode threw " + e.what()); continue; }
-        try { T back = decode_typed<T>(f, enc); if (!Eq<T>::eq(back, t)) { out().viol(sig, what + "decode(encode(t)) gives " + show_value(back) + " (encoding " + hex(enc) + ")"); continue; } }
+        try { T back = decode_typed<T>(f, enc); if (!Eq<T>::eq(back, t) && Near<T>::ok(f, t, back)) { out().count("compared_up_to_the_formats_representation"); }
+              else if (!Eq<T>::eq(back, t)) { out().viol(sig, what + "decode(encode(t)) gives " + show_value(back) + " (encoding " + hex(enc) + ")"); continue; } }
         catch (const std::exception& e) { out().viol(sig, what + "decode of own encoding threw " + e.what() + " (encoding " + hex(enc) + ")"); continue; }
         if (have_json) {
             // the streaming encoding and the encoding of the basic_json intermediate denote the same value
